@@ -348,6 +348,8 @@ def preprocess(template: Path, checks, defs=None):
     for l in lines:
         if l.strip().startswith("//@INCLUDE"):
             inc = (template.parent / l.split()[1]).read_text()
+            for k, v in (defs or {}).items():
+                inc = inc.replace("{{" + k + "}}", v)
             inc = inc.replace("CHECKS_PRE_WRITE_BITS", "(value as nat) < pow2(n as nat)," if checks else "")
             for il in inc.splitlines():
                 if il.strip().startswith("//@HOOK"):
@@ -377,7 +379,7 @@ def rewrite_map_err(body, log):
                 if depth == 0:
                     break
                 depth -= 1
-            elif depth == 0 and (c in ";=," ):
+            elif depth == 0 and (c in ";=,|"):
                 break
             k -= 1
         recv = body[k + 1:m.start()]
@@ -472,7 +474,7 @@ def build_unit(repo: Path, template: Path, checks=False, defs=None):
                 m = re.match(r"//@PROOF\s+after=(?:<<(.*?)>>|\[\[(.*?)\]\])(?:#(\d+))?\s+(.*)", l)
                 proofs.append((m.group(1) if m.group(1) is not None else m.group(2), m.group(4), int(m.group(3) or 1)))
             elif l.startswith("//@REPLACE_RE"):
-                m = re.match(r"//@REPLACE_RE\s+<<(.*?)>>\s*=>\s*<<(.*?)>>", l)
+                m = re.match(r"//@REPLACE_RE\s+\[\[(.*?)\]\]\s*=>\s*\[\[(.*?)\]\]", l) or re.match(r"//@REPLACE_RE\s+<<(.*?)>>\s*=>\s*<<(.*?)>>", l)
                 repls_re.append((m.group(1), m.group(2)))
             elif l.startswith("//@LOOPEND"):
                 m = re.match(r"//@LOOPEND\s+(\d+)\s+(.*)", l)
